@@ -48,6 +48,19 @@ STRENGTHENED = {
  "C15_f": "missed at first; caught by the C03 re-injection sub-check (a name that was a rule local is later injected as a pointer)",
  "C17_f": "missed at first; exec-model changes / queries in a tight loop next to the storm requests added: the pool wedges",
  "C20_f": "missed at first; texts with the faulty construct beyond line 65535 added",
+ "C01_g": "missed at first (NaN was left undefined by the reference); 'made in float64' is unambiguous, so NaN / infinities are injected and computed and compared now",
+ "C01_h": "the run was INCONCLUSIVE (the generated text did not compile) instead of failing; a generated text of the language that the builder rejects is a violation now (C01, C02, C03, C18)",
+ "C02_h": "missed at first; locals bound to a whole array-typed field added (stores into the field afterwards, reads through the local)",
+ "C03_g": "missed at first; a local whose name is injected WHILE the rule runs (by a host function) added to the re-injection sub-check",
+ "C03_h": "missed at first; promoted fields of embedded structs (one and two levels) added to fixture, leaves and conversion matrix (933 -> 1018 cells)",
+ "C04_h": "caught by C16 and C05 at once, by C04 only after the share of pool targets was raised to one half",
+ "C06_g": "missed at first; N-M requests the method rejects added to the pool storms (they must get a result map of their own)",
+ "C09_g": "missed at first; in one catalog case in three the faulty rule sets the stop tag before it faults",
+ "C09_h": "missed at first; constructs 'fault in the argument of a function / method / three-level call statement', outside and inside conc blocks, added (425 -> 540 cells): the process dies",
+ "C11_h": "missed at first; one generated rule in four runs a loop that leaves by break / skips by continue before its own statements",
+ "C12_h": "missed at first; the selected calls made before the mid-case incremental replacement are repeated unchanged (same method, same name list, same engine) right after it",
+ "C15_g": "missed at first; locals assigned from an element of injected data (an addressable location) added next to locals assigned from constants",
+ "C15_h": "missed at first; function-valued locals added to the leak probe (a rule that never assigned hfn calls it; a rule that assigned its own calls it)",
 }
 rows = []
 for d in sorted(glob.glob('/verif/seeded/C[0-9]*_[a-z]')):
